@@ -76,7 +76,7 @@ C07_SIGS = ("restart:vote-granted-twice-in-term", "election:vote-granted-twice-i
 
 
 C04_SIGS = ("restart:committed-entry-changed", "restart:committed-entry-not-majority-backed",
-            "restart:commit-index-beyond-known", "commit:index-moved-backwards")
+            "restart:commit-index-beyond-known", "commit:index-moved-backwards", "commit:applied-moved-backwards")
 C10_SIGS = ("restart:members-not-fold-of-journal-over-dump", "restart:member-sets-differ-at-quiescence")
 
 
@@ -299,7 +299,11 @@ class Runner(object):
         if k == "tick":
             if not self.live(e[1]):
                 return False
-            ctx["fresh"] = self.fresh.pop(e[1], None)
+            if getattr(sim.transports[e[1]], "_nr", 0) > 1:
+                ctx["fresh"] = None                  # this tick stays in the not-ready branch: not the first real tick yet
+                self.cov["tick-while-transport-not-ready"] += 1
+            else:
+                ctx["fresh"] = self.fresh.pop(e[1], None)
             if ctx["fresh"] is not None:
                 ctx["pre_log"] = set(sim.log_of(e[1]))
             if ctx["fresh"] is not None and self.members:
@@ -316,7 +320,11 @@ class Runner(object):
         elif k == "tick_k":
             if not self.live(e[1]):
                 return False
-            ctx["fresh"] = self.fresh.pop(e[1], None)
+            if getattr(sim.transports[e[1]], "_nr", 0) > 1:
+                ctx["fresh"] = None                  # this tick stays in the not-ready branch: not the first real tick yet
+                self.cov["tick-while-transport-not-ready"] += 1
+            else:
+                ctx["fresh"] = self.fresh.pop(e[1], None)
             if ctx["fresh"] is not None:
                 ctx["pre_log"] = set(sim.log_of(e[1]))
             if ctx["fresh"] is not None and self.members:
@@ -361,6 +369,19 @@ class Runner(object):
             if self.live(e[1]):
                 return False
             self._restart(e[1])
+        elif k == "not_ready":
+            # ["not_ready", i, k]: the transport of node i is not ready (port still busy) for its next k ticks
+            if not self.live(e[1]):
+                return False
+            t = sim.transports[e[1]]
+            if not hasattr(t, "_nr"):
+                def try_get_ready(self_):
+                    if self_._nr > 0:
+                        self_._nr -= 1
+                t.__class__ = type("NotReadyYet", (t.__class__,), {"ready": property(lambda self_: self_._nr == 0),
+                                                                   "tryGetReady": try_get_ready})
+            t._nr = e[2]
+            self.cov["not-ready-ticks-armed"] += 1
         elif k == "start":
             # ["start", i, [partner ids], observer?]: (re)start a dead node with THIS partner list (its configuration)
             if self.live(e[1]):
@@ -608,6 +629,10 @@ class Runner(object):
             if lg == g and pos <= lp:
                 self.flag("restart:position-executed-twice-in-generation",
                           "node %s (generation %d) executed position %d after position %d" % (i, g, pos, lp))
+                # an execution at position p happens with lastApplied = p - 1
+                self.flag("commit:applied-moved-backwards",
+                          "node %s (generation %d) had applied position %d and then executes position %d: its applied index went "
+                          "from %d back to %d while it runs" % (i, g, lp, pos, lp, pos - 1))
             self.exec_last[i] = (g, pos)
         self.exec_from[i] = len(ex)
 
@@ -1337,6 +1362,79 @@ def base_snapshot_stale_reset(r):
     return info
 
 
+def base_snapshot_stale_dup(r):
+    """FIFO channels only.  Two heartbeats in flight to a lagging follower give two `reset` replies and the leader sends
+    its snapshot (k1) once per reply.  The follower installs the first copy, journals and applies what follows, and
+    compacts its own log (own dump at C > k1, journal trimmed to C-1); then the second copy arrives: the node keeps
+    state and log (it has applied k1 long ago) — its stored snapshot must stay the newer one its journal was trimmed to."""
+    V = r.V
+    sim = r.sim
+    r.ev("connect_all")
+    L = r.elect()
+    if L is None:
+        return {}
+    F = [i for i in V if i != L]
+    lag, other = F[-1], F[0]
+    rest = [i for i in V if i != lag]
+    r.ev("submit", L, "d0")
+    r.rounds(3)
+    for j in rest:
+        r.ev("cut", lag, j)                        # unnoticed: the leader's nextIndex runs ahead
+    for k in range(1, 4):
+        r.ev("submit", L, "d%d" % k)
+    r.rounds(5, among=rest)
+    r.ev("compact", L)
+    r.rounds(2, among=rest)                        # leader's dump k1, journal head dropped
+    for k in range(4, 8):
+        r.ev("submit", L, "d%d" % k)
+    r.rounds(6, among=rest)
+    if sim.leader(rest) != L or sim.objs[L].raftLastApplied != sim.last_index(L):
+        return {}
+    k1 = sim.log_of(L)[0][0] + 1
+    r.ev("connect", lag, L)
+    r.ev("tick", L, 0.1875)
+    r.ev("tick", L, 0.1875)                        # two heartbeats in flight
+    if len(sim.chan[(L, lag)]) != 2 or any("prevLogIdx" not in m for m in sim.chan[(L, lag)]):
+        return {}
+    r.ev("deliver", L, lag)                        # -> reset #1
+    r.ev("deliver", L, lag)                        # -> reset #2
+    r.ev("deliver", lag, L)                        # reset #1: the leader's nextIndex falls below its journal head
+    r.ev("tick", L, 0.1875)                        # first copy of snapshot k1 + the following entries
+    while sim.chan[(L, lag)]:
+        r.ev("deliver", L, lag)
+    r.ev("tick", lag, 0.0625)                      # applies what it knows committed
+    r.ev("compact", lag)
+    r.ev("tick", lag, 0.0625)
+    r.ev("tick", lag, 0.0625)                      # own dump at C, journal trimmed to C-1
+    C = sim.objs[lag].raftLastApplied
+    if not (sim.log_of(lag)[0][0] == C - 1 and C > k1 + 1):
+        return {}
+    q = sim.chan[(lag, L)]
+    if not q or not q[0].get("reset"):
+        return {}
+    r.ev("deliver", lag, L)                        # the second reset: the whole snapshot once more
+    r.ev("tick", L, 0.1875)
+    info = {"leader": L, "followers": F, "lag": lag, "k1": k1, "own_dump": C}
+    n = 0
+    while sim.chan[(L, lag)] and n < 400:
+        m = sim.chan[(L, lag)][0]
+        r.ev("deliver", L, lag)
+        n += 1
+        if m.get("serialized") is not None and m["serialized"][2]:
+            info["window_from"] = len(r.events)    # right after the last chunk of the second copy
+    if "window_from" not in info:
+        return {}
+    info["window_to"] = info["window_from"] + 2
+    r.ev("tick", lag, 0.0625)
+    for j in rest:
+        if j != L:
+            r.ev("connect", lag, j)
+    r.rounds(8)
+    r.ev("submit", L, "d9")
+    r.rounds(3)
+    return info
+
+
 def base_minority(r):
     """a follower installs the leader's snapshot, then the OTHER follower is cut off: the next commands are committed
     on the strength of the first follower's acknowledgement alone; then the leader is cut off for good and the two
@@ -1518,7 +1616,7 @@ BASES = {"vote": base_vote, "replication": base_replication, "snapshot": base_sn
          "members": base_members, "minority": base_minority, "snapshot_late": base_snapshot_late,
          "snapshot_partial": base_snapshot_partial, "members_minority": base_members_minority,
          "snapshot_stale_reset": base_snapshot_stale_reset, "members_vote": base_members_vote,
-         "members_drop": base_members_drop}
+         "members_drop": base_members_drop, "snapshot_stale_dup": base_snapshot_stale_dup}
 # (conflict: one batch per tick — with several pipelined batches and a conflicting LAST entry on the follower
 #  the real code alternates between two reset replies forever; a progress matter (C05), see notes/restart.md)
 BASE_CONF = {"vote": {}, "replication": {"appendEntriesBatchSizeBytes": 24},
@@ -1531,6 +1629,7 @@ BASE_CONF = {"vote": {}, "replication": {"appendEntriesBatchSizeBytes": 24},
              "snapshot_stale_reset": {"logCompactionBatchSize": 64, "appendEntriesBatchSizeBytes": 2 ** 16},
              "members_vote": {"dynamicMembershipChange": True, "appendEntriesBatchSizeBytes": 2 ** 16},
              "members_drop": {"dynamicMembershipChange": True, "appendEntriesBatchSizeBytes": 64},
+             "snapshot_stale_dup": {"logCompactionBatchSize": 64, "appendEntriesBatchSizeBytes": 2 ** 16},
              "snapshot_partial": {"logCompactionBatchSize": 16, "appendEntriesBatchSizeBytes": 2 ** 16}}
 
 
@@ -1621,11 +1720,14 @@ def record_base(repo, name, spec, tmpdir):
     return r, info
 
 
-def back_up(V, victims, probe=True):
-    """restart the victims, reconnect them, and let every other node try to get their vote in the current term"""
+def back_up(V, victims, probe=True, nr=0):
+    """restart the victims (nr > 0: with a transport that is not ready for their first nr ticks), reconnect them, and let
+    every other node try to get their vote in the current term"""
     ev = []
     for v in victims:
         ev.append(["restart", v])
+        if nr:
+            ev += [["not_ready", v, nr + 1], ["tick", v, 0.0], ["tick", v, 0.0]]
     for v in victims:
         for j in V:
             if j != v and (j not in victims or j > v):
@@ -1684,7 +1786,7 @@ def directed_items(repo, name, spec, tmpdir, stride=1, offset=0, kinds=("between
                 n += 1
                 if skip(n):
                     continue
-                ins = [["kill", v] for v in vs] + back_up(V, vs)
+                ins = [["kill", v] for v in vs] + back_up(V, vs, nr=2 if n % 3 == 0 else 0)
                 if name == "vote":
                     # the competitor becomes candidate (same term) at every later position q
                     for q in range(p, len(S) + 1):
